@@ -5,6 +5,7 @@ package main
 import (
 	"fmt"
 	"os"
+	"sort"
 	"strings"
 
 	"github.com/google/uuid"
@@ -258,4 +259,13 @@ func (s *Sim) TCPDial(from, to string) (*vnet.TCPConn, error) {
 	c, err := vnet.DialTCP("tcp", la, ra)
 	vnet.Fab.DriverMode = false
 	return c, err
+}
+
+func sortedKeys[V any](m map[string]V) string {
+	var k []string
+	for x := range m {
+		k = append(k, x)
+	}
+	sort.Strings(k)
+	return strings.Join(k, ",")
 }
